@@ -87,8 +87,13 @@ fn raise_fd_limit() {
     unsafe {
         let mut r = libc::rlimit { rlim_cur: 0, rlim_max: 0 };
         if libc::getrlimit(libc::RLIMIT_NOFILE, &mut r) == 0 {
-            r.rlim_cur = r.rlim_max.min(1 << 20);
-            libc::setrlimit(libc::RLIMIT_NOFILE, &r);
+            // with CAP_SYS_RESOURCE the hard limit can be raised as well: a subject change that
+            // leaks descriptors in every execution must end in verdicts, not in EMFILE
+            let big = libc::rlimit { rlim_cur: 1 << 20, rlim_max: 1 << 20 };
+            if libc::setrlimit(libc::RLIMIT_NOFILE, &big) != 0 {
+                r.rlim_cur = r.rlim_max;
+                libc::setrlimit(libc::RLIMIT_NOFILE, &r);
+            }
         }
     }
 }
